@@ -5,6 +5,6 @@ import Driver.Fam.Relmap
 open Driver
 /-- families of area "control" (pg_control, sequences, relation maps) -/
 def main (args : List String) : IO UInt32 :=
-  run [Fam.control, Fam.controlOrig, Fam.controlBits, Fam.controlVer, Fam.controlRead, Fam.controlTotal, Fam.controlAny,
+  run [Fam.control, Fam.controlOrig, Fam.controlBits, Fam.controlVer, Fam.controlRead, Fam.controlTotal, Fam.controlAny, Fam.controlPg10,
        Fam.sequence, Fam.sequenceOrig, Fam.isseq, Fam.isseqOrig, Fam.seqAny, Fam.seqAnyOrig, Fam.seqTotal,
        Fam.relmap, Fam.relmapTotal] args
